@@ -189,7 +189,11 @@ impl<'a> Ctx<'a> {
         }
         if got.class() != expected {
             let p = if got.class() == "Panic" { "C08" } else { prop };
-            self.mismatch(p, step, &format!("decision of {op}"), expected.to_string(), got.detail(), extra);
+            self.mismatch(p, step, &format!("decision of {op}"), expected.to_string(), got.detail(), extra.clone());
+            // a crash where the specification says the call succeeds is also a failure of the functional property
+            if got.class() == "Panic" && expected == "Ok" && prop != "C08" {
+                self.mismatch(prop, step, &format!("decision of {op}"), expected.to_string(), got.detail(), extra);
+            }
             false
         } else {
             true
